@@ -149,9 +149,11 @@ EndCtl(c, i) ==
             !.rlatch[i] = IF @ = "unset" /\ PC(i).hasReadyProbe THEN "aborted" ELSE @,
             !.llatch[i] = IF @ = "unset" THEN "aborted" ELSE @]
 
+\* onProcessEnd takes effect once per instance (claimEnd): a stop request may have ended a pending
+\* instance already, in which case the second caller changes nothing
 Skip(i) ==      \* wontRun + addDoneProcess; onProcessSkipped follows in the epilogue
   /\ ctl.ipc[i] = "skip"
-  /\ S' = ApplyAll(S, EndEvents(i, "Skipped", 1) \o <<Ev("DoneReg", P(i), i)>>)
+  /\ S' = ApplyAll(S, (IF ctl.done[i] THEN <<>> ELSE EndEvents(i, "Skipped", 1)) \o <<Ev("DoneReg", P(i), i)>>)
   /\ ctl' = [EndCtl(ctl, i) EXCEPT !.ipc[i] = "epilogue.skipped", !.code[i] = 1]
 
 (***************************************************************************)
@@ -160,13 +162,14 @@ Skip(i) ==      \* wontRun + addDoneProcess; onProcessSkipped follows in the epi
 PreCheck(i) ==
   /\ ctl.ipc[i] = "run.precheck"
   /\ IF ctl.cancelled[i]
-     THEN \* stopped before start: wait for the stop's Terminating, then Completed (only over Terminating)
+     THEN \* stopped before start: wait until the stop request has ended the instance; an ended
+          \* instance does not write the (shared) state record
           /\ ctl.done[i]
-          /\ S' = IF S.status[P(i)] = "Terminating"
-                  THEN Apply(S, StateEv(P(i), i, "Completed", S.exitCode[P(i)])) ELSE S
+          /\ UNCHANGED S
           /\ ctl' = [ctl EXCEPT !.ipc[i] = "epilogue.add", !.code[i] = 0]
      ELSE IF PC(i).badWorkdir
-          THEN /\ S' = ApplyAll(S, EndEvents(i, "Error", IF S.exitCode[P(i)] = 0 THEN 1 ELSE S.exitCode[P(i)]))
+          THEN /\ S' = IF ctl.done[i] THEN S
+                         ELSE ApplyAll(S, EndEvents(i, "Error", IF S.exitCode[P(i)] = 0 THEN 1 ELSE S.exitCode[P(i)]))
                /\ ctl' = [EndCtl(ctl, i) EXCEPT !.ipc[i] = "epilogue.add", !.code[i] = 1]
           ELSE /\ S' = Apply(S, Ev("Started", P(i), i))
                /\ ctl' = [ctl EXCEPT !.started[i] = TRUE, !.ipc[i] = "run.launch"]
@@ -257,7 +260,8 @@ BackoffAborted(i) ==
 
 End(i) ==       \* onProcessEnd(Completed)
   /\ ctl.ipc[i] = "ending"
-  /\ S' = ApplyAll(S, EndEvents(i, "Completed", IF S.inst[i].exits > 0 THEN ctl.code[i] ELSE S.exitCode[P(i)]))
+  /\ S' = IF ctl.done[i] THEN S
+          ELSE ApplyAll(S, EndEvents(i, "Completed", IF S.inst[i].exits > 0 THEN ctl.code[i] ELSE S.exitCode[P(i)]))
   /\ ctl' = [EndCtl(ctl, i) EXCEPT !.ipc[i] = "epilogue.add"]
 
 (***************************************************************************)
@@ -314,13 +318,16 @@ StopAct(s, c, t) ==
   LET p == s.inst[t].p IN
   IF s.status[p] \notin RunningStates \/ s.inst[t].launches = 0
   THEN IF ~c.started[t] /\ ~c.done[t]
-       THEN << ApplyAll(s, << [ev |-> "State", p |-> p, i |-> t, status |-> "Terminating", exit |-> s.exitCode[p],
+       THEN \* a pending instance: nothing to terminate, onProcessEnd(Completed) in this one step
+            << ApplyAll(s, << [ev |-> "State", p |-> p, i |-> t, status |-> "Completed", exit |-> s.exitCode[p],
                                health |-> "-", restarts |-> s.restarts[p]],
-                              [ev |-> "Done", p |-> p, i |-> t, status |-> "Terminating", exit |-> s.exitCode[p]] >>),
+                              [ev |-> "Done", p |-> p, i |-> t, status |-> "Completed", exit |-> s.exitCode[p]] >>),
                [c EXCEPT !.done[t] = TRUE, !.cancelled[t] = TRUE,
                          !.rlatch[t] = IF @ = "unset" /\ PCfg(s.cfg, p).hasReadyProbe THEN "aborted" ELSE @,
                          !.llatch[t] = IF @ = "unset" THEN "aborted" ELSE @] >>
        ELSE << s, c >>
+  ELSE IF c.done[t]
+  THEN << s, c >>     \* setStateIfRunning: an ended instance does not take its successor's Running for its own
   ELSE << ApplyAll(s, << [ev |-> "State", p |-> p, i |-> t, status |-> "Terminating", exit |-> s.exitCode[p],
                           health |-> "-", restarts |-> s.restarts[p]],
                          [ev |-> "Signal", p |-> p, i |-> t, sig |-> 15, sinceStopUs |-> -1] >>),
@@ -427,13 +434,15 @@ ApiLookup(id) ==
        [] c.op = "stop" ->
             IF t = NoInst
             THEN S' = ApiReturn(id, FALSE) /\ ctl' = [ctl EXCEPT !.calls[id].pc = "closed"]
-            ELSE UNCHANGED S /\ ctl' = [ctl EXCEPT !.calls[id].pc = "stop.cancel", !.calls[id].target = t,
-                                                  !.stopFlag[t] = TRUE]
+            ELSE S' = Apply(S, Ev("StopReq", c.p, t))
+                 /\ ctl' = [ctl EXCEPT !.calls[id].pc = "stop.cancel", !.calls[id].target = t,
+                                       !.stopFlag[t] = TRUE]
        [] c.op = "restart" ->
             IF t = NoInst
             THEN UNCHANGED S /\ ctl' = [ctl EXCEPT !.calls[id].pc = "api.restart.slept"]
-            ELSE UNCHANGED S /\ ctl' = [ctl EXCEPT !.calls[id].pc = "stop.cancel", !.calls[id].target = t,
-                                                  !.stopFlag[t] = TRUE]
+            ELSE S' = Apply(S, Ev("StopReq", c.p, t))
+                 /\ ctl' = [ctl EXCEPT !.calls[id].pc = "stop.cancel", !.calls[id].target = t,
+                                       !.stopFlag[t] = TRUE]
 
 ApiStopCancel(id) ==
   /\ ctl.calls[id].pc = "stop.cancel"
@@ -459,8 +468,13 @@ ApiSpawn(id) ==           \* runProcess of a new instance (start / restart)
   /\ ctl.next <= MaxInst
   /\ LET p == ctl.calls[id].p  i == ctl.next
          s1 == Apply(S, Ev("Spawn", p, i))
-     IN /\ S' = Apply(s1, [ev |-> "ApiEnd", id |-> id, ok |-> TRUE])
-        /\ ctl' = [NewCtl(ctl, i, p) EXCEPT !.calls[id].pc = "closed"]
+         cur == S.running[p]
+     IN IF cur # NoInst /\ ~ctl.done[cur]
+        THEN \* addRunningProcess refuses to replace an instance that has not ended (check and registration are atomic)
+             /\ S' = Apply(Apply(S, Ev("SpawnRefused", p, i)), [ev |-> "ApiEnd", id |-> id, ok |-> FALSE])
+             /\ ctl' = [ctl EXCEPT !.calls[id].pc = "closed"]
+        ELSE /\ S' = Apply(s1, [ev |-> "ApiEnd", id |-> id, ok |-> TRUE])
+             /\ ctl' = [NewCtl(ctl, i, p) EXCEPT !.calls[id].pc = "closed"]
 
 ApiShutLock(id) ==
   /\ ctl.calls[id].pc = "lookup" /\ ctl.calls[id].op = "shutdown"
